@@ -15,9 +15,6 @@ pub struct Body {
     inner: BoxBody<Bytes, BoxError>,
 }
 
-#[derive(Debug)]
-pub(crate) struct DataStream(Body);
-
 impl Body {
     /// Create an empty body.
     pub fn empty() -> Self {
@@ -43,11 +40,6 @@ impl Body {
     {
         let inner = under.map_err(Into::into).boxed();
         Body { inner }
-    }
-
-    /// Converts this body into an `impl Stream` of only the data frames.
-    pub(crate) fn into_data_stream(self) -> DataStream {
-        DataStream(self)
     }
 }
 
@@ -101,24 +93,5 @@ impl HttpBody for Body {
     #[inline]
     fn is_end_stream(&self) -> bool {
         self.inner.is_end_stream()
-    }
-}
-
-impl futures::Stream for DataStream {
-    type Item = Result<Bytes, BoxError>;
-
-    fn poll_next(
-        mut self: Pin<&mut Self>,
-        cx: &mut Context<'_>,
-    ) -> Poll<Option<Self::Item>> {
-        loop {
-            match futures::ready!(Pin::new(&mut self.0).poll_frame(cx)?) {
-                Some(frame) => match frame.into_data() {
-                    Ok(data) => return Poll::Ready(Some(Ok(data))),
-                    Err(_frame) => {}
-                },
-                None => return Poll::Ready(None),
-            }
-        }
     }
 }
